@@ -5,6 +5,7 @@ import re
 import signal
 from enum import Enum
 from qbee import grammar
+from qbee.expr import power
 from pyparsing.exceptions import ParseException
 from qbee.exceptions import SyntaxError as QbeeSyntaxError
 from .instrs import op_code_to_instr
@@ -862,7 +863,14 @@ class QvmCpu:
                       expected=a.type,
                       got=b.type)
 
-        result = a.value ** b.value
+        try:
+            result = power(a.value, b.value)
+        except OverflowError:
+            self.trap(TrapCode.INVALID_CELL_VALUE,
+                      type=a.type, value='overflow')
+        if isinstance(result, complex):
+            # a negative number to a fractional power
+            self.trap(TrapCode.INVALID_OPERAND_VALUE)
         self.push(a.type, result)
 
     def _exec_frame(self, params_size, local_vars_size):
